@@ -27,7 +27,7 @@ def calibrate():
 
 
 def strategy(tier):
-    return Lm.case_st(tier, scopes=True, pdata=True)
+    return Lm.case_st(tier, scopes=True, pdata=True, ivs=True)
 
 
 def budget(tier):
@@ -69,6 +69,8 @@ def classes(case, exp):
         cl.append("register_insert-scope")
     if any(case.dropped.values()):
         cl.append("some-edits-dropped")
+    if any(b.newiv for b in case.blocks):
+        cl.append("several-intervals-in-a-section")
     return cl
 
 
@@ -79,6 +81,8 @@ def in_known_class(fid, spec, failure):
         return _after_full(case)
     if fid == "C01-call-at-section-end":
         return Lm.call_at_section_end(case)
+    if fid == "C01-layout-reorders-intervals":
+        return Lm.multi_interval_growth(case)
     return False
 
 
@@ -108,6 +112,9 @@ def evaluate(spec):
         return out
     for p in r.obs.problems:
         out.fail("C01.bytes", "layout-problem", p)
+    for name, order in r.obs.reordered:
+        out.fail("C01.interval-order", "intervals-reordered",
+                 f"section {name}: the input's byte intervals now lie in address order {order}", "reordered")
     for si, (name, _) in enumerate(case.sections):
         want, got = exp.sec_bytes[si], r.obs.sec_bytes[si]
         if want != got:
